@@ -180,8 +180,18 @@ func runCheck(prop, tier string, seed int) int {
 		for _, e := range engineErrs {
 			fmt.Printf("ENGINE: %s\n", e)
 		}
-		writeEvidence(prop, tier, seed, all, keys, notes, 0, nil, time.Since(t0), "engine error: "+strings.Join(engineErrs, "; "))
-		return undecided(engineErrs[0])
+		// functions whose contract no longer fits the code produce no obligations; a failed obligation of
+		// another function is still a finding of its own, so go on and report those, and stay undecided otherwise
+		anyFailed := false
+		for _, o := range all {
+			if !o.IsCanary && o.Res.Answer != "unsat" && o.Res.Answer != "" {
+				anyFailed = true
+			}
+		}
+		if !anyFailed {
+			writeEvidence(prop, tier, seed, all, keys, notes, 0, nil, time.Since(t0), "engine error: "+strings.Join(engineErrs, "; "))
+			return undecided(engineErrs[0])
+		}
 	}
 	// classify
 	bySolver := map[string]int{}
